@@ -21,6 +21,12 @@ type pmodel struct {
 	st      verState
 	cleared bool
 	em      int
+	fulls   []fullRec // texts of earlier successful full updates (re-pushed later)
+}
+
+type fullRec struct {
+	text string
+	st   verState
 }
 
 func descText(r *trace.Rule) string {
@@ -36,12 +42,13 @@ func descTextOf(rules []*trace.Rule) string {
 }
 
 type mgmtOp struct {
-	Kind  string   `json:"kind"`
-	Text  string   `json:"text,omitempty"`
-	Names []string `json:"names,omitempty"`
-	EM    int      `json:"em,omitempty"`
-	WantE bool     `json:"want_error"`
-	GotE  string   `json:"got_error,omitempty"`
+	Kind   string   `json:"kind"`
+	Text   string   `json:"text,omitempty"`
+	Names  []string `json:"names,omitempty"`
+	EM     int      `json:"em,omitempty"`
+	WantE  bool     `json:"want_error"`
+	Repush bool     `json:"repush_of_earlier_text,omitempty"`
+	GotE   string   `json:"got_error,omitempty"`
 }
 
 func (m *pmodel) names() []string {
@@ -61,6 +68,14 @@ func genMgmt(r *rand.Rand, tg *tagger, m *pmodel) (*mgmtOp, func()) {
 	}
 	switch r.Intn(12) {
 	case 0, 1: // full update
+		if len(m.fulls) > 0 && r.Intn(3) == 0 {
+			// re-push of a text that was pushed before (after other operations changed the set)
+			f := m.fulls[len(m.fulls)-1]
+			if r.Intn(3) == 0 {
+				f = m.fulls[r.Intn(len(m.fulls))]
+			}
+			return &mgmtOp{Kind: "full", Text: f.text, Repush: true}, func() { m.st, m.cleared = f.st.clone(), false }
+		}
 		n := 2 + r.Intn(4)
 		names := append([]string{}, alphabet...)
 		r.Shuffle(len(names), func(i, j int) { names[i], names[j] = names[j], names[i] })
@@ -71,7 +86,8 @@ func genMgmt(r *rand.Rand, tg *tagger, m *pmodel) (*mgmtOp, func()) {
 			st[nm] = ru
 			rules = append(rules, ru)
 		}
-		return &mgmtOp{Kind: "full", Text: descTextOf(rules)}, func() { m.st, m.cleared = st, false }
+		text := descTextOf(rules)
+		return &mgmtOp{Kind: "full", Text: text}, func() { m.st, m.cleared = st, false; m.fulls = append(m.fulls, fullRec{text, st.clone()}) }
 	case 2, 3, 4: // incremental update
 		st := m.st.clone()
 		var rules []*trace.Rule
@@ -208,6 +224,9 @@ func RunC16(k *fw.Case) {
 			trace.CompileLocked(func() error { e, pan = doMgmt(p, op); return nil })
 			k.Eval(1)
 			k.Count("op_"+op.Kind, 1)
+			if op.Repush {
+				k.Count("op_full_repush", 1)
+			}
 			if pan != nil {
 				viol(op.Kind+"/panic", fmt.Sprintf("management call %s panicked: %v", op.Kind, pan), nil)
 				return
